@@ -12,12 +12,12 @@ import collections, fcntl, hashlib, json, os, re, shutil, subprocess, sys, time
 
 ROOT = os.path.dirname(os.path.dirname(os.path.abspath(__file__)))
 REPO = os.environ.get("VERIF_REPO", "/repo")
-BUILD = os.path.join(ROOT, ".build")
+BUILD = os.environ.get("VERIF_BUILD") or os.path.join(ROOT, ".build")   # VERIF_REPO/VERIF_BUILD/VERIF_EVID: scratch runs against a mutated copy
 HB = os.path.join(BUILD, "repo")            # hook-enabled build tree of /repo
 HARNESS_SRC = os.path.join(ROOT, "harness")
 HARNESS_OUT = os.path.join(BUILD, "harness")
 SPECS = os.path.join(ROOT, "specs")
-EVID = os.path.join(ROOT, "evidence")
+EVID = os.environ.get("VERIF_EVID") or os.path.join(ROOT, "evidence")
 TLA_JAR = "/opt/veriftools/tla/tla2tools.jar:/opt/veriftools/tla/CommunityModules-deps.jar"
 NPROC = os.cpu_count() or 8
 
@@ -98,7 +98,8 @@ class Ctx:
             gen_harness_ninja()
             r = sh(["ninja", "-C", HARNESS_OUT, "bin/" + name])
             if r.returncode:
-                raise InfraError("harness build failed (%s):\n%s" % (name, r.stdout[-6000:]))
+                errs = [l for l in r.stdout.splitlines() if "error" in l and not l.startswith("ccache ")]
+                raise InfraError("harness build failed (%s):\n%s" % (name, "\n".join(errs[:30]) or r.stdout[-3000:]))
         return os.path.join(HARNESS_OUT, "bin", name)
 
     # ------------------------------------------------------------------ TLC
